@@ -29,3 +29,58 @@ Fixpoint ptrace (s : pstate) (script : list paction) : list (list bool) :=
 Definition C13_pubsub_case := (list paction * list (list bool))%type.
 Definition C13_pubsub_check (c : C13_pubsub_case) : bool :=
   list_eqb (list_eqb Bool.eqb) (ptrace pinit (fst c)) (snd c).
+
+(* ======================================================================================
+   The Open protocol of tar.ReaderFS for one regular entry, as a transition system: a writer
+   (destination writes, then Close, then Emit), the reader's end (store the error, mark done, cancel),
+   caller cancellation at any time, and an opener going through Open's steps one atomic read at a
+   time.  Every interleaving of these steps is a path of [pstep_rel]. *)
+
+Inductive ophase :=
+| OWaiting        (* in ps.Wait(name) *)
+| OWoken          (* Wait returned *)
+| OCheckDone      (* the key was not visited: look at readerCtx *)
+| OCheckErr       (* look at UnarchiveErr *)
+| OOpenDest       (* unarchiveFS.Open(name) *)
+| OResult (r : option nat).   (* None = error, Some k = a handle showing k bytes *)
+
+Record gstate := mkGS {
+  g_written : nat;        (* bytes of the entry in the destination so far *)
+  g_total : nat;          (* the entry's size *)
+  g_wfailed : bool;       (* the writer hit an error (no Emit will follow) *)
+  g_emitted : bool;       (* ps.Emit(name) happened: visited[name] *)
+  g_err : bool;           (* unarchiveErr has been stored *)
+  g_rdone : bool;         (* readerDone() *)
+  g_cancel : bool;        (* callerCtx is cancelled *)
+  g_op : ophase
+}.
+
+Definition ginit (total : nat) : gstate := mkGS 0 total false false false false false OWaiting.
+
+Definition set_op (s : gstate) (p : ophase) : gstate :=
+  mkGS (g_written s) (g_total s) (g_wfailed s) (g_emitted s) (g_err s) (g_rdone s) (g_cancel s) p.
+
+Inductive gstep : gstate -> gstate -> Prop :=
+| G_write s : g_written s < g_total s -> g_wfailed s = false -> g_emitted s = false ->
+    gstep s (mkGS (Datatypes.S (g_written s)) (g_total s) false false (g_err s) (g_rdone s) (g_cancel s) (g_op s))
+| G_writer_fail s : g_emitted s = false ->
+    gstep s (mkGS (g_written s) (g_total s) true false (g_err s) (g_rdone s) (g_cancel s) (g_op s))
+| G_emit s : g_written s = g_total s -> g_wfailed s = false -> g_emitted s = false ->
+    gstep s (mkGS (g_written s) (g_total s) false true (g_err s) (g_rdone s) (g_cancel s) (g_op s))
+| G_reader_ok s : g_emitted s = true -> g_rdone s = false -> g_err s = false ->
+    gstep s (mkGS (g_written s) (g_total s) (g_wfailed s) true false true (g_cancel s) (g_op s))
+| G_store_err s : g_rdone s = false ->
+    gstep s (mkGS (g_written s) (g_total s) (g_wfailed s) (g_emitted s) true false (g_cancel s) (g_op s))
+| G_reader_done_err s : g_err s = true -> g_rdone s = false ->
+    gstep s (mkGS (g_written s) (g_total s) (g_wfailed s) (g_emitted s) true true (g_cancel s) (g_op s))
+| G_cancel s :     (* by the caller at any time, or by the reader after readerDone *)
+    gstep s (mkGS (g_written s) (g_total s) (g_wfailed s) (g_emitted s) (g_err s) (g_rdone s) true (g_op s))
+| G_wait s : g_op s = OWaiting -> g_emitted s = true \/ g_cancel s = true -> gstep s (set_op s OWoken)
+| G_check_vis s : g_op s = OWoken -> gstep s (set_op s (if g_emitted s then OCheckErr else OCheckDone))
+| G_check_done s : g_op s = OCheckDone -> gstep s (set_op s (if g_rdone s then OCheckErr else OResult None))
+| G_check_err s : g_op s = OCheckErr -> gstep s (set_op s (if g_err s then OResult None else OOpenDest))
+| G_open s : g_op s = OOpenDest -> gstep s (set_op s (OResult (Some (g_written s)))).
+
+Inductive greach (total : nat) : gstate -> Prop :=
+| GR_init : greach total (ginit total)
+| GR_step s s' : greach total s -> gstep s s' -> greach total s'.
